@@ -11,6 +11,67 @@ open AHP AHP.Gen AHP.Conv AHP.Gen.Code
 theorem excOf_TypeError : excOf "TypeError" = .typeError := by decide
 theorem excOf_ValueError : excOf "ValueError" = .valueError := by decide
 
+/-! ### association lists -/
+
+theorem lookup_assocSet_eq {α : Type} (l : List (String × α)) (x : String) (v : α) :
+    (assocSet l x v).lookup x = some v := by
+  induction l with
+  | nil => simp [assocSet, List.lookup]
+  | cons p r ih =>
+    obtain ⟨y, w⟩ := p
+    by_cases h : y = x
+    · simp [assocSet, h, List.lookup]
+    · have h' : (x == y) = false := by simpa using fun e => h e.symm
+      simp [assocSet, h, List.lookup, h', ih]
+
+theorem lookup_assocSet_ne {α : Type} (l : List (String × α)) (x z : String) (v : α) (hz : z ≠ x) :
+    (assocSet l x v).lookup z = l.lookup z := by
+  induction l with
+  | nil =>
+    have h' : (z == x) = false := by simpa using hz
+    simp [assocSet, List.lookup, h']
+  | cons p r ih =>
+    obtain ⟨y, w⟩ := p
+    by_cases h : y = x
+    · subst h
+      have h' : (z == y) = false := by simpa using hz
+      simp [assocSet, List.lookup, h']
+    · simp only [assocSet, h, if_false, List.lookup]
+      cases (z == y) <;> simp [ih]
+
+theorem assocSet_assocSet {α : Type} (l : List (String × α)) (x : String) (v w : α) :
+    assocSet (assocSet l x v) x w = assocSet l x w := by
+  induction l with
+  | nil => simp [assocSet]
+  | cons p r ih =>
+    obtain ⟨y, u⟩ := p
+    by_cases h : y = x
+    · simp [assocSet, h]
+    · simp [assocSet, h, ih]
+
+theorem assocSet_self {α : Type} (l : List (String × α)) (x : String) (v : α) (h : l.lookup x = some v) :
+    assocSet l x v = l := by
+  induction l with
+  | nil => simp [List.lookup] at h
+  | cons p r ih =>
+    obtain ⟨y, u⟩ := p
+    by_cases hy : y = x
+    · subst hy
+      simp [List.lookup] at h
+      simp [assocSet, h]
+    · have h' : (x == y) = false := by simpa using fun e => hy e.symm
+      simp only [List.lookup, h'] at h
+      simp [assocSet, hy, ih h]
+
+/-- The equations of `execS` for the straight-line statements (not the loops: those are rewritten as a whole). -/
+macro "py_stmts" : tactic => `(tactic| simp only [execS.eq_1, execS.eq_2, execS.eq_3, execS.eq_4, execS.eq_5, execS.eq_6,
+  execS.eq_7, execS.eq_10, execS.eq_11, execS.eq_12, execS.eq_13, execS.eq_14, execS.eq_15, execL, execH])
+
+/-- `simp` with the equations of the straight-line statements and further facts (the loops stay folded). -/
+macro "py_straight" "[" ts:Lean.Parser.Tactic.simpLemma,* "]" : tactic => `(tactic| simp [$ts,*, execS.eq_1, execS.eq_2,
+  execS.eq_3, execS.eq_4, execS.eq_5, execS.eq_6, execS.eq_7, execS.eq_10, execS.eq_11, execS.eq_12, execS.eq_13, execS.eq_14,
+  execS.eq_15, execL, execH, eval, evalList, List.lookup, Val.truthy, truthy, Lit.toPy, resultOf])
+
 /-! ### the functions of conversions.py, by name, each in the context of the functions defined before it -/
 
 @[simp] theorem name_1 : convertToIntOrNegativeOneIfUnset_ast.name = "convertToIntOrNegativeOneIfUnset" := rfl
